@@ -12,26 +12,9 @@ Lemma in_olist {A} (x : option A) a : In a (olist x) <-> x = Some a.
 Proof. destruct x; simpl; split; try tauto; try discriminate; [intros [->|[]]; auto|intro H; injection H as ->; auto]. Qed.
 
 (* ---------------------------------------------------------------- the fragment *)
-Definition neutral_dt (v : ustr) : bool :=
-  negb (ueqb v Tables.c_xsd_boolean) && negb (ueqb v Tables.c_xsd_datetime) && negb (ueqb v Tables.c_xsd_integer).
 Lemma canon_neutral v x : neutral_dt v = true -> canon v x = canon [] x.
 Proof. unfold neutral_dt, canon. rewrite !andb_true_iff, !negb_true_iff. intros [[A B] C]. now rewrite A, B, C. Qed.
 
-Definition plain_map (m : tmap) : bool := is_plain (m_kind m) && ueqb (undelimit (m_kind m) (m_value m)) (m_value m).
-Definition plain_graph (m : tmap) : bool :=
-  plain_map m && (mkind_eqb (m_kind m) KConst || negb (ueqb (m_value m) Tables.c_rml_default_graph)).
-Definition plain_objmap (o : objmap) : bool :=
-  plain_map (o_tm o) &&
-  match o_lang o, o_dt o with
-  | None, None => true
-  | Some l, None => mkind_eqb (m_kind l) KConst && neutral_dt (m_value l)
-  | None, Some d => mkind_eqb (m_kind d) KConst
-  | Some _, Some _ => false
-  end.
-Definition plain_pom (p : pom) : bool := forallb plain_map (p_preds p) && forallb plain_objmap (p_objs p) && forallb plain_graph (p_graphs p).
-Definition plain_tm (t : tmapdef) : bool :=
-  plain_map (t_subj t) && forallb plain_graph (t_sgraphs t) && forallb plain_pom (t_poms t)
-  && match t_sjoins t with [] => true | _ => false end.
 
 (* ---------------------------------------------------------------- term types: the normaliser's completion is R2RML 7.4 *)
 Lemma tt_object_is_spec o : tt_final (tt_object o) = spec_tt_object o.
